@@ -6,6 +6,7 @@ these, this file stops compiling and the check reports a broken obligation.
 import Pandora.Gen.GrpcGun
 import Pandora.Model.C20
 import Pandora.Model.C20Net
+import Pandora.Model.C20Feed
 
 namespace Pandora.Bridge.C20
 open Pandora.Model.C20
@@ -173,7 +174,8 @@ theorem ammoJsonTags_eq :
 fields; `Reset` assigns the whole struct (`Model.C20.decodeAmmo`, `resetAmmo`) -/
 theorem ammoDecodeInto_eq : Gen.GrpcGun.ammoDecodeInto = "&$fresh (a zero-valued local of type grpc.Ammo)" := rfl
 theorem ammoResetCall_eq :
-    Gen.GrpcGun.ammoResetCall = "$1.Reset($fresh.Tag, $fresh.Call, $fresh.Metadata, $fresh.Payload)" := rfl
+    Gen.GrpcGun.ammoResetCall =
+      "$1.Reset(\"\", \"\", nil, nil);$1.Reset($fresh.Tag, $fresh.Call, $fresh.Metadata, $fresh.Payload)" := rfl
 theorem ammoResetBody_eq : Gen.GrpcGun.ammoResetBody = "*$recv = Ammo{$0, $1, $2, $3, 0, false}" := rfl
 
 /-- grpc/json keeps payload numbers as written (`json.Number`): the model's `convert` works on the literal text -/
@@ -192,5 +194,69 @@ theorem methodTable_eq :
 /-- `ConvertGrpcStatus`: OK ↦ 200, InvalidArgument ↦ 400 (the two replies of the example service, `serverCode`) -/
 theorem status_ok : Gen.GrpcGun.statusOk = 200 := rfl
 theorem status_invalid_argument : Gen.GrpcGun.statusInvalidArgument = 400 := rfl
+
+/-- … and the whole of it: the switch of `ConvertGrpcStatus`, as a table from gRPC status code numbers to reported codes
+with its default, is the model's `statusTable` / `statusDefault` (`convertStatus`, used for injected faults) -/
+theorem statusTable_eq : Gen.GrpcGun.statusTable = statusTable := rfl
+theorem statusDefault_eq : Gen.GrpcGun.statusDefault = statusDefault := rfl
+
+/-! ### the grpc/json provider's reading loop (`Model.C20.scanPass`, `runPasses`, `action`)
+
+Canonical statements: `$recv` the provider, `$0` the context, `$1` the file, `$int0` the ammo counter, `$int1` the pass
+counter, `$int2` the line number, `$*bufio.Scanner0` the pass's scanner, `$*ammo.Ammo0` the decoded ammo. -/
+
+/-- every pass counts itself, makes a NEW scanner and gives it the configured buffer (`Raw.long` is judged per pass) -/
+theorem providerPassPrologue_eq : Gen.GrpcGun.providerPassPrologue =
+    ["$int1++", "$*bufio.Scanner0 := bufio.NewScanner($1)",
+     "if $recv.Config.MaxAmmoSize != 0 { var $[]byte0 []byte $*bufio.Scanner0.Buffer($[]byte0, $recv.Config.MaxAmmoSize) }"] := rfl
+/-- the scanner is asked first, then the limit (`scanPass`: `isLong` before the limit) -/
+theorem providerLoopCond_eq : Gen.GrpcGun.providerLoopCond =
+    "$*bufio.Scanner0.Scan() && ($recv.Limit == 0 || $int0 < $recv.Limit)" := rfl
+/-- decode into a pooled ammo; on an error invalidate (continueonerror) or stop; drop tags that are not chosen; count;
+deliver (`action`, `scanPass`) -/
+theorem providerLoopBody_eq : Gen.GrpcGun.providerLoopBody =
+    ["$[]byte1 := $*bufio.Scanner0.Bytes()",
+     "$*ammo.Ammo0, $error0 := decodeAmmo($[]byte1, $recv.Pool.Get().(*ammo.Ammo))",
+     "if $error0 != nil { if $recv.Config.ContinueOnError { $*ammo.Ammo0.Invalidate() } else { return errors.Wrapf($error0, \"…\", $int2, $[]byte1) } }",
+     "if !confutil.IsChosenCase($*ammo.Ammo0.Tag, $recv.Config.ChosenCases) { continue }",
+     "$int0++",
+     "select { case $recv.Sink <- $*ammo.Ammo0: case <-$0.Done(): return nil }"] := rfl
+/-- after a pass: scanner error ⇒ stop; limit reached ⇒ done; passes done ⇒ done; nothing delivered at all ⇒ error;
+rewind (`runPasses`) -/
+theorem providerAfterPass_eq : Gen.GrpcGun.providerAfterPass =
+    ["$error1 := $*bufio.Scanner0.Err()", "if $error1 != nil { return errors.Wrap($error1, \"…\") }",
+     "if $recv.Limit != 0 && $int0 >= $recv.Limit { break }", "if $recv.Passes != 0 && $int1 >= $recv.Passes { break }",
+     "if $int0 == 0 { return errors.New(\"…\") }", "_, $error1 = $1.Seek(0, 0)",
+     "if $error1 != nil { return errors.Wrap($error1, \"…\") }"] := rfl
+/-- a line that cannot be decoded leaves NOTHING of the pooled object's previous entry (`invalidEntry = zeroEntry`) … -/
+theorem ammoDecodeOnError_eq : Gen.GrpcGun.ammoDecodeOnError =
+    ["$1.Reset(\"\", \"\", nil, nil)", "return $1, errors.WithStack($error0)"] := rfl
+/-- … and the gun does not shoot an ammo marked invalid: it returns before the method lookup, making no call (the
+deferred report gives the one failed sample) -/
+theorem gunInvalidAmmo_eq : Gen.GrpcGun.gunInvalidAmmo =
+    "if $0.IsInvalid() { … return=true }; calls inside=0; before the method lookup=true" := rfl
+
+/-! ### shared client pool size (`Model.C20.effClients`) -/
+
+theorem poolGuards_eq : Gen.GrpcGun.poolGuards =
+    ["if !$recv.Conf.SharedClient.Enabled { return nil, nil }",
+     "if $recv.Conf.SharedClient.ClientNumber < 1 { $recv.Conf.SharedClient.ClientNumber = 1 }"] := rfl
+theorem poolSize_eq : Gen.GrpcGun.poolSize = "$recv.Conf.SharedClient.ClientNumber" := rfl
+theorem poolLoop_eq : Gen.GrpcGun.poolLoop =
+    "for $int0 := 0; $int0 < $recv.Conf.SharedClient.ClientNumber; $int0++ | Add calls=1" := rfl
+
+/-! ### scenario provider and gun: registry of calls, postprocessors (`Model.C20.registry`, `assertFails`) -/
+
+/-- the registry is filled in file order by plain assignment: the last definition of a name wins; requests are resolved
+through it -/
+theorem scenarioCallRegistry_eq : Gen.GrpcGun.scenarioCallRegistry =
+    "for $int0, $config.CallConfig0 := range $0.Calls { $map[string]config.CallConfig0[$config.CallConfig0.Name] = $config.CallConfig0 }" := rfl
+theorem scenarioCallLookup_eq : Gen.GrpcGun.scenarioCallLookup = "$1[$string1]" := rfl
+/-- the postprocessors run after the call, with the reply and its code; an error ends the step -/
+theorem scenarioPostprocessors_eq : Gen.GrpcGun.scenarioPostprocessors =
+    "range $0.Postprocessors { $map[string]any3, $error3 := $scenario.Postprocessor0.Process($protoiface.MessageV10, $int0) ; if $error3 != nil { return fmt.Errorf(\"…\", op, $error3) } ; $map[string]any0 = mergeMaps($map[string]any0, $map[string]any3) } | after InvokeRpc=true" := rfl
+/-- assert/response: a configured status code other than the reply's is an error -/
+theorem assertStatusCheck_eq : Gen.GrpcGun.assertStatusCheck =
+    "if $recv.StatusCode != 0 && $recv.StatusCode != $1 { return an error=true }" := rfl
 
 end Pandora.Bridge.C20
